@@ -65,6 +65,10 @@ def run(model, tier="quick"):
     views(res, model)
     ledgers(res, model, ["supply", "withdraw", "borrow", "repay", "__sub_supply_amount", "__sub_borrow_amount"])
     res.floor("obligations", len(res.obligations), 15)
+    from ..rules.fresh import fresh_rule
+    if "R-FRESH" not in res.rules:
+        res.rules.append("R-FRESH")
+    fresh_rule(model, res, scope=('demeter/aave/',))
     res.assumptions = ["indices in the data are positive (data)", "Decimal division error is not analysed"]
     res.not_decided = ["split/merge equality to 1e-18 over arbitrary interleavings (Decimal rounding of repeated divisions)"]
     return res
